@@ -204,3 +204,14 @@ def needs_existing(n):
 def make_and_use(v):
     n = STNode(v)
     return needs_existing(n)
+
+
+def pair_of(a, b):
+    return (a, b)
+
+
+def use_pair(a, v):
+    p = pair_of(a, None)
+    n = STNode(v)
+    n.tag = "new"
+    return p[0].tag
